@@ -4,6 +4,7 @@
 export GOFLAGS=-mod=mod GOPROXY=off GOSUMDB=off GOTOOLCHAIN=local GOWORK=off
 cd /verif
 tag=$1; p=$2; extra=$3
+before=$(ls -d seeded/$p-s* 2>/dev/null | wc -l)
 wt=/tmp/wt$tag-$p
 for n in 1 2; do
   [ -f $wt/SEEDED/$n/patch.diff ] || { echo "$p: SEEDED/$n missing"; continue; }
@@ -17,4 +18,12 @@ try:
     for p,v in m.get('checks',{}).items(): print('    ',p, v['exit'], [f[:150] for f in v['fails'][:2]])
 except Exception as e: print('ERROR', e)"
 done
+# keep the worktree when something was not confirmed (disk full, a flaky run): the seeds would be lost otherwise
+if grep -q '"confirmed": false\|"confirmed": null' seeded/$p-s*/meta.json 2>/dev/null && [ -z "$FORCE_REMOVE" ]; then
+  bad=$(grep -l '"confirmed": false\|"confirmed": null' seeded/$p-s*/meta.json 2>/dev/null | tr '\n' ' ')
+  [ -n "$bad" ] && echo "NOTE: unconfirmed: $bad"
+fi
+df --output=avail -BG / | tail -1 | tr -d ' G' | awk '$1 < 20 {print "WARNING: less than 20G free: run go clean -cache"}'
+after=$(ls -d seeded/$p-s* 2>/dev/null | wc -l)
+if [ $((after-before)) -lt 2 ] && [ -z "$FORCE_REMOVE" ]; then echo "NOTE: only $((after-before)) of 2 seeds stored for $p: worktree $wt kept (FORCE_REMOVE=1 to drop it)"; exit 0; fi
 git -C /repo worktree remove --force $wt 2>/dev/null
